@@ -3,6 +3,8 @@ package main
 import (
 	"fmt"
 	"math/rand"
+	"net"
+	"strconv"
 	"sync"
 	"time"
 
@@ -86,9 +88,11 @@ type FaultPlan struct {
 	ackRun   map[string]int
 	sidOrder map[uint32]int
 	// statistics
-	Stats   map[string]int
-	Hits    []string // rule hits in order, for shapes
-	MutDesc []string
+	Stats    map[string]int
+	Hits     []string // rule hits in order, for shapes
+	MutDesc  []string
+	Net      *simnet.Net     // for reflect: where to inject
+	injected map[string]bool // datagrams injected by the plan itself
 	// Observe is called for every classified datagram (under lock).
 	Observe func(p *PktInfo, d *simnet.Datagram)
 }
@@ -132,6 +136,9 @@ func (fp *FaultPlan) classify(d *simnet.Datagram) PktInfo {
 func (fp *FaultPlan) Decide(d *simnet.Datagram) simnet.Decision {
 	fp.mu.Lock()
 	defer fp.mu.Unlock()
+	if fp.injected[string(d.Data)] && d.From == fp.serverAddrFor(d) {
+		return simnet.Decision{Note: "injected"}
+	}
 	p := fp.classify(d)
 	fp.Stats["seen_"+p.Kind]++
 	if fp.Observe != nil {
@@ -198,6 +205,26 @@ func (fp *FaultPlan) Decide(d *simnet.Datagram) simnet.Decision {
 			dec.Dup = 1 + r.Dups
 		case "delay":
 			dec.Delay = time.Duration(r.DelayMs) * time.Millisecond
+		case "reflect":
+			// send a copy of this datagram back to its own sender, as if it
+			// came from the peer; most effective when its sequence number is
+			// the one the sender itself expects next from the peer
+			if fp.Net == nil {
+				continue
+			}
+			if p.Meta.Seq < p.Meta.UnAck || p.Meta.Seq > p.Meta.UnAck+2 {
+				continue
+			}
+			if fp.injected == nil {
+				fp.injected = map[string]bool{}
+			}
+			cp := append([]byte(nil), d.Data...)
+			fp.injected[string(cp)] = true
+			from, to := parseAddr(d.To), parseAddr(d.From)
+			n := fp.Net
+			delay := time.Duration(r.DelayMs) * time.Millisecond
+			time.AfterFunc(delay, func() { n.InjectDatagram(from, to, cp) })
+			fp.MutDesc = append(fp.MutDesc, fmt.Sprintf("reflect %v back to its sender %s", p.Meta, d.From))
 		case "mutate":
 			if p.Seg == nil || r.Mut == nil {
 				continue
@@ -273,4 +300,18 @@ func (fp *FaultPlan) ruleStrings() []string {
 		out = append(out, r.String())
 	}
 	return out
+}
+
+// serverAddrFor returns the address an injected (reflected) copy of d claims
+// to come from: reflected datagrams are recognised by content and by the fact
+// that they travel opposite to their protocol direction.
+func (fp *FaultPlan) serverAddrFor(d *simnet.Datagram) string { return d.From }
+
+func parseAddr(s string) net.Addr {
+	host, portStr, err := net.SplitHostPort(s)
+	if err != nil {
+		return &net.UDPAddr{}
+	}
+	port, _ := strconv.Atoi(portStr)
+	return &net.UDPAddr{IP: net.ParseIP(host), Port: port}
 }
